@@ -23,6 +23,66 @@ struct Piece(Vec<u8>);
 impl AsRef<[u8]> for Piece { fn as_ref(&self) -> &[u8] { &self.0 } }
 impl AsRef<str> for Piece { fn as_ref(&self) -> &str { std::str::from_utf8(&self.0).unwrap() } }
 
+/// item whose `as_ref` answers differently from call to call: the k-th call returns `vars[min(k, last)]`; every variant is the
+/// visible prefix of a buffer that continues with bytes the caller never exposes (0xEE for bytes, '#' for text)
+struct Flip { vars: std::rc::Rc<Vec<(Vec<u8>, usize)>>, calls: std::rc::Rc<std::cell::Cell<usize>>, handed: std::rc::Rc<std::cell::RefCell<Vec<Vec<u8>>>> }
+impl Flip {
+    fn get(&self) -> &[u8] {
+        let k = self.calls.get(); self.calls.set(k + 1);
+        let (buf, vis) = &self.vars[k.min(self.vars.len() - 1)];
+        self.handed.borrow_mut().push(buf[..*vis].to_vec());
+        &buf[..*vis]
+    }
+}
+impl AsRef<[u8]> for Flip { fn as_ref(&self) -> &[u8] { self.get() } }
+impl AsRef<str> for Flip { fn as_ref(&self) -> &str { std::str::from_utf8(self.get()).unwrap() } }
+/// `shared`: the clone used for the length pass hands out the very same items (one call counter per item for the whole call);
+/// otherwise every traversal gets fresh items (the counter restarts in each pass)
+struct FlipIter { items: std::rc::Rc<Vec<(std::rc::Rc<Vec<(Vec<u8>, usize)>>, std::rc::Rc<std::cell::Cell<usize>>, std::rc::Rc<std::cell::RefCell<Vec<Vec<u8>>>>)>>, pos: usize, shared: bool }
+impl Clone for FlipIter { fn clone(&self) -> Self { FlipIter { items: self.items.clone(), pos: self.pos, shared: self.shared } } }
+impl Iterator for FlipIter {
+    type Item = Flip;
+    fn next(&mut self) -> Option<Flip> {
+        let r = self.items.get(self.pos).map(|(v, c, h)| Flip { vars: v.clone(), calls: if self.shared { c.clone() } else { std::rc::Rc::new(std::cell::Cell::new(0)) }, handed: h.clone() });
+        self.pos += 1;
+        r
+    }
+}
+
+/// can `out` be written as one handed-out slice per item, in order (with `sep` between them for join)?
+fn decomposes(out: &[u8], handed: &[Vec<Vec<u8>>], sep: Option<&[u8]>, i: usize) -> bool {
+    if i == handed.len() { return out.is_empty(); }
+    let mut rest = out;
+    if i > 0 { if let Some(sp) = sep { if !rest.starts_with(sp) { return false; } rest = &rest[sp.len()..]; } }
+    handed[i].iter().any(|h| rest.starts_with(h) && decomposes(&rest[h.len()..], handed, sep, i + 1))
+}
+
+fn flip_one<B: Backend>(sum: &mut Summary, bk: &str, is_str: bool, join: bool, shared: bool, items: &[Vec<Vec<u8>>], sep: &[u8]) {
+    sum.evaluations += 1;
+    let secret: u8 = if is_str { b'#' } else { 0xEE };
+    let cells: Vec<_> = items.iter().map(|vars| (std::rc::Rc::new(vars.iter().map(|v| { let mut b = v.clone(); b.extend(std::iter::repeat(secret).take(64)); (b, v.len()) }).collect::<Vec<_>>()),
+        std::rc::Rc::new(std::cell::Cell::new(0usize)), std::rc::Rc::new(std::cell::RefCell::new(Vec::new())))).collect();
+    let it = FlipIter { items: std::rc::Rc::new(cells.clone()), pos: 0, shared };
+    let r: Result<Vec<u8>, String> = quiet_catch(AssertUnwindSafe(|| {
+        if is_str { let h: HipStr<'static, B> = if join { HipStr::join(it, std::str::from_utf8(sep).unwrap()) } else { HipStr::concat(it) }; h.verif_bytes().as_slice().to_vec() }
+        else { let h: HipByt<'static, B> = if join { HipByt::join(it, sep) } else { HipByt::concat(it) }; h.as_slice().to_vec() }
+    }));
+    let desc = format!("{} with an AsRef that changes its answer from call to call ({}) ty={} bk={} items={:?} sep={:?} prof={}", if join { "join" } else { "concat" },
+        if shared { "same items in both passes" } else { "fresh items per pass" }, if is_str { "str" } else { "byt" }, bk,
+        items.iter().map(|vs| vs.iter().map(|v| hex(v)).collect::<Vec<_>>()).collect::<Vec<_>>(), hex(sep), profile());
+    match r {
+        Ok(bytes) => {
+            let handed: Vec<Vec<Vec<u8>>> = cells.iter().map(|c| c.2.borrow().clone()).collect();
+            if is_str && std::str::from_utf8(&bytes).is_err() { sum.violation(format!("{{\"what\":{},\"observed\":{},\"expected\":\"panic or well-formed UTF-8\"}}", jstr(&desc), jstr(&format!("HipStr holding ill-formed UTF-8 {}", hex(&bytes))))); }
+            else if !bytes.is_empty() && !decomposes(&bytes, &handed, if join { Some(sep) } else { None }, 0) {
+                sum.violation(format!("{{\"what\":{},\"observed\":{},\"expected\":\"panic, or one of the slices each item handed out, in order\"}}", jstr(&desc), jstr(&format!("Ok({}) which is not made of slices the items handed out{}", hex(&bytes), if bytes.contains(&secret) { " (it contains bytes the caller never exposed)" } else { "" }))));
+            }
+            sum.count("flip.ok");
+        }
+        Err(_) => { sum.count("flip.panic"); }
+    }
+}
+
 fn pieces_coq(ps: &[Vec<u8>]) -> String { format!("[{}]", ps.iter().map(|p| coq_bytes(p)).collect::<Vec<_>>().join("; ")) }
 
 fn one<B: Backend>(sum: &mut Summary, w: &mut CaseWriter, seen: &mut std::collections::HashSet<String>, bk: &str, is_str: bool, join: bool, first: &[Vec<u8>], second: &[Vec<u8>], sep: &[u8]) {
@@ -109,6 +169,17 @@ fn drive<B: Backend>(sum: &mut Summary, w: &mut CaseWriter, seen: &mut std::coll
             let join = rng.chance(1, 2);
             let sep = if join { rng.pick(&seps).clone() } else { vec![] };
             one::<B>(sum, w, seen, bk, is_str, join, &first, &second, &sep);
+        }
+        // unstable AsRef: per item a list of answers (call 1, call 2, call 3...)
+        let words: Vec<Vec<u8>> = if is_str { vec![b"ab".to_vec(), "\u{e9}\u{20ac}".as_bytes().to_vec(), "\u{1F980}\u{1F980}\u{1F980}\u{1F980}".as_bytes().to_vec(), b"X".to_vec(), vec![], "a long enough piece of text \u{e9}".as_bytes().to_vec()] }
+            else { vec![b"ab".to_vec(), piece(7, 1), piece(30, 2), b"X".to_vec(), vec![], piece(16, 3)] };
+        let n_flip = if tier == "thorough" { 3000 } else { 500 };
+        for _ in 0..n_flip {
+            let n_items = 1 + rng.below(3);
+            let items: Vec<Vec<Vec<u8>>> = (0..n_items).map(|_| { let k = 1 + rng.below(3); let stable = rng.chance(1, 3); let a = rng.pick(&words).clone(); (0..k).map(|j| if stable || (j < 2 && rng.chance(1, 2)) { a.clone() } else { rng.pick(&words).clone() }).collect() }).collect();
+            let join = rng.chance(1, 2);
+            let sep = if join { rng.pick(&seps).clone() } else { vec![] };
+            flip_one::<B>(sum, bk, is_str, join, rng.chance(1, 2), &items, &sep);
         }
     }
 }
